@@ -231,3 +231,86 @@ Example C07_two_timelines_nonvacuous :
   /\ times_of 1 tls (p1 ++ p2) = [0; 50000; 100000]
   /\ tick_counts 1 (p1 ++ p2) 0 = [0; 4; 8].
 Proof. vm_compute. repeat split. Qed.
+
+(** * The track list changes DURING the track phase (lemmas: Sched/MergeCbProofs.v) *)
+(* Action events whose callbacks unschedule / mute / update / nudge another track, stop their own track, or schedule a new
+   track - on ticks on which the neighbours have events due.  The model is Sched/Model.v as it stands ([tick_one] runs the
+   callback's operations on the timeline in the middle of [phase_tracks]). *)
+From Isobar Require Import Sched.MergeCbProofs.
+
+(* snapshot semantics, for EVERY configuration and state: only the ids present when the phase starts take a turn (a track
+   scheduled by a callback does not play in the tick that created it); when the tick runs through EVERY one of them has
+   taken its turn, in order, whatever the earlier turns did to the track list (nobody is skipped because a neighbour left or
+   arrived); a track that an earlier turn removed makes no call and is not touched *)
+Theorem C07_snapshot_only : forall cfg ids tl id, In id (map fst (track_turns cfg tl ids)) -> In id ids.
+Proof. exact turns_within_snapshot. Qed.
+Theorem C07_snapshot_all : forall cfg ids tl c, snd (phase_tracks cfg tl ids c) = ROk -> map fst (track_turns cfg tl ids) = ids.
+Proof. exact turns_cover_snapshot. Qed.
+Theorem C07_snapshot_removed : forall cfg tl id, find_track id (tracks tl) = None -> tick_one cfg tl id = (tl, [], None).
+Proof. exact turn_of_removed. Qed.
+
+(* THE MERGE THEOREM WITH CALLBACKS THAT PERFORM TIMELINE OPERATIONS.  As C07_merge, with [cb_noops] replaced by
+   [cbs_wf] (inside [uncoupled_cb]): the callbacks owned by the observed track i perform only operations aimed at i
+   (stop / mute / unmute / nudge / update of i - they happen in the solo run too), every other callback performs only
+   operations aimed at other tracks (unschedule / mute / unmute / nudge / update of tracks other than i, unnamed schedule
+   calls with streams outside i's channels).  [ticks_wf]: a callback schedules a track only on ticks after i got its id
+   (ids are the model's names for object identities).  Then for ALL such histories - any number of tracks, any ticks on
+   which the track list shrinks or grows in the middle of the phase, before or after i's position - tick by tick the calls
+   owned by i in the joint run ARE the calls of its solo run, the states are related by [sim], no solo tick is aborted. *)
+Theorem C07_merge_cb : forall i pc pb cfg h,
+  uncoupled_cb i pc pb cfg = true -> hist_wf i pc pb 0 h = true -> ticks_wf i cfg 0 h = true -> all_ticks_ok cfg tl0 h = true ->
+  tick_calls cfg (tl_at i) (solo i 0 h) = map (filter (call_ok pc pb)) (tick_calls cfg tl0 h)
+  /\ sim i pc pb (run_state cfg tl0 h) (run_state cfg (tl_at i) (solo i 0 h))
+  /\ all_ticks_ok cfg (tl_at i) (solo i 0 h) = true.
+Proof. exact merge_cb_from_empty. Qed.
+
+(* one tick from any pair of related states: the simulation survives a tick in which foreign callbacks change the track list *)
+Theorem C07_merge_cb_tick : forall i pc pb cfg J S,
+  dev_fail cfg = None -> stop_when_done cfg = false -> max_tracks cfg = 0 -> (forall cb, cb_wf i pc pb cfg cb = true) ->
+  sim i pc pb J S -> nid_rel i J S -> ((i < next_id J)%nat \/ cb_sched_free cfg = true) ->
+  let '(J', cJ, rJ) := tl_tick cfg J in
+  let '(S', cS, rS) := tl_tick cfg S in
+  rJ = ROk -> rS = ROk /\ sim i pc pb J' S' /\ cS = filter (call_ok pc pb) cJ.
+Proof.
+  intros i pc pb cfg J S D W M C H N K. pose proof (tl_tick_sim' i pc pb cfg D W M C J S H (conj N K)) as T.
+  destruct (tl_tick cfg J) as [[J' cJ] rJ]. destruct (tl_tick cfg S) as [[S' cS] rS]. intros R.
+  destruct (T R) as [T1 [T2 [T3 _]]]. auto.
+Qed.
+
+(* C07_merge's hypothesis is the special case *)
+Theorem C07_merge_cb_generalises : forall i pc pb cfg, uncoupled cfg = true -> uncoupled_cb i pc pb cfg = true /\ cb_sched_free cfg = true.
+Proof.
+  unfold uncoupled, uncoupled_cb. intros i pc pb cfg U. apply andb_true_iff in U as [U U4]. apply andb_true_iff in U as [U U3].
+  apply andb_true_iff in U as [U1 U2]. destruct (cb_noops_wf i pc pb cfg U2) as [A B]. rewrite U1, A, U3, U4. split; [reflexivity|exact B].
+Qed.
+
+(* non-vacuity (tau = 1): X (id 0, channel 0) plays a note every 2 ticks; K (id 1, channel 1) calls callback 0 on tick 0, callback
+   1 on tick 2 and callback 2 on tick 4; Z (id 2, channel 2) plays every 2 ticks - it is due on every tick on which K's callbacks
+   run.  Callback 0 mutes X, callback 1 unschedules X (a track BEFORE K) and schedules a new track on channel 3, callback 2 stops K
+   itself.  Z - placed after K - is not skipped on ticks 2 and 4 and plays exactly what it plays alone; the new track (id 3) does
+   not play on tick 2 (the tick that created it) but from tick 3 on; X's sounding note is released on time by the timeline. *)
+Definition mp_cfg : config :=
+  mkConfig 1 [(CbNone, [OMute 0]);
+              (CbNone, [OSchedule (mkStream [nt 1 90 3 1] 0 true) None None (Some 2) true None true; OUnschedule 0]);
+              (CbExc, [OUnschedule 1])] 0 0 false false None 8.
+Definition act (d : Z) (cb : nat) : evres := REvent (mkEvent d true (KAction cb)).
+Definition mp_h : list op :=
+  [ OSchedule (mkStream [nt 2 60 0 4] 0 true) None None None true None true;
+    OSchedule (mkStream [act 2 0; act 2 1; act 2 2; nt 2 50 1 1] 0 false) None None None true None true;
+    OSchedule (mkStream [nt 2 70 2 1; nt 2 71 2 1] 0 true) None None None true None true;
+    OTick; OTick; OTick; OTick; OTick; OTick; OTick ].
+Example C07_merge_cb_nonvacuous :
+  uncoupled_cb 2 (on_channel 2) (one_of []) mp_cfg = true
+  /\ uncoupled mp_cfg = false
+  /\ hist_wf 2 (on_channel 2) (one_of []) 0 mp_h = true
+  /\ ticks_wf 2 mp_cfg 0 mp_h = true
+  /\ all_ticks_ok mp_cfg tl0 mp_h = true
+  /\ tick_calls mp_cfg tl0 mp_h =
+       [ [CNoteOn 60 64 0; CCallback 0; CNoteOn 70 64 2]; [CNoteOff 70 2]; [CCallback 1; CNoteOn 71 64 2];
+         [CNoteOff 71 2; CNoteOn 90 64 3]; [CNoteOff 90 3; CNoteOff 60 0; CCallback 2; CNoteOn 70 64 2; CNoteOn 90 64 3];
+         [CNoteOff 70 2; CNoteOff 90 3]; [CNoteOn 71 64 2] ]
+  /\ tick_calls mp_cfg (tl_at 2) (solo 2 0 mp_h) =
+       [ [CNoteOn 70 64 2]; [CNoteOff 70 2]; [CNoteOn 71 64 2]; [CNoteOff 71 2]; [CNoteOn 70 64 2]; [CNoteOff 70 2]; [CNoteOn 71 64 2] ]
+  /\ map (fun o => snd o) (run mp_cfg tl0 mp_h) =
+       ([ [0]; [0; 1]; [0; 1; 2]; [0; 1; 2]; [0; 1; 2]; [1; 2; 3]; [1; 2; 3]; [2; 3]; [2]; [2] ])%nat.
+Proof. vm_compute. repeat split. Qed.
